@@ -110,9 +110,17 @@ def run_case(case):
             stateB = store_state(stB, ffuncs.pair)
             # ---- batch store
             stA = mk("A")
+            if skind == "fs+cache":
+                # some elements were memoized by an earlier session: on disk, but cold in the memory cache
+                cold = [k for k in pre if rng.random() < 0.5]
+                env.set_env(sc.path("envA0"), default_storage=env.fs_backend(sc.path("A%d" % b)))
+                for k in cold:
+                    outcome_of(lambda: ffuncs.pair(prefix, k))
+                out["obs"]["elements_cold_in_cache"] += len(cold)
             env.set_env(sc.path("envA"), default_storage=stA)
             for k in pre:
-                outcome_of(lambda: ffuncs.pair(prefix, k))
+                if skind != "fs+cache" or k not in cold:
+                    outcome_of(lambda: ffuncs.pair(prefix, k))
             mark = REC.mark()
             if pres == "full":
                 call = lambda: ffuncs.pair.call_batch([{"prefix": prefix, "k": k} for k in batch], raise_first_exception=raise_first)
